@@ -12,7 +12,7 @@
 3. every answer of the library is compared with the answer expected by the specification
    (query points on a boundary are excluded, as in the property).
 """
-import fcntl, json, os, subprocess, time
+import fcntl, json, os, re, subprocess, time
 import vlib
 from vlib import Check, Broken, log
 
@@ -226,12 +226,12 @@ def compare(ck, store, outs, crashes):
                 rec = {"kind": keep["k"], "what": what, "cause": cause,
                        "expected": int(want[i]) if want[i] in "01" else want[i],
                        "observed": int(s[i]) if s[i] in "01" else s[i]}
-                if ck.known_match(rec) is None and case is None:
-                    case = full_case(store, cid)
+                if ck.known_match(rec) is None and case is None and len(ck.violations) < 40:
+                    case = full_case(store, cid)     # complete replay for the first violations only
                 replay = {"meta": {k: meta[k] for k in meta if k != "q"} if (case or {}).get("q") else meta,
                           "case": case if case is not None else {"id": cid},
                           "variant": var, "query_index": i,
-                          "query_point_spec_coordinates": ((case or {}).get("q") or q0)[i],
+                          "query_point_spec_coordinates": (((case or {}).get("q") or q0)[i:i + 1] or [None])[0],
                           "failing_query_indices": bad[:50], "runs_with_this_answer": ent["cnt"],
                           "first_runs (image|vertex order|api)": ent["tags"],
                           "how": "write meta and case as two lines of a file and run .build/bin/poly_run <file> <out>"}
@@ -378,6 +378,10 @@ def run_all(ck, specs):
             module, cfg, tag, lvl, kw = r["spec"]
             res, counts, store = r["res"], r["counts"], r["store"]
             nstates = res.distinct or res.generated
+            if kw.get("simulate"):
+                m = re.findall(r"number of states generated: ([\d,]+)", res.stdout)
+                if m:
+                    nstates = res.generated = int(m[-1].replace(",", ""))
             log("[C20] %s (%s): %d states, %d polygons, %d sets, %d refinements skipped (not simple), TLC %.1fs, harness %.1fs" %
                 (tag, module, nstates, counts["poly"], counts["set"], counts["skip"], res.wall, r["hwall"]))
             ck.add("states", nstates)
